@@ -1,4 +1,3 @@
-use quote::quote;
 use syn::{Data, DeriveInput, Meta, Type};
 
 use super::{
